@@ -66,14 +66,33 @@ class ModelModifier:
         params, quantized_model
     )
 
+    original_outputs = [
+        list(subgraph.outputs) for subgraph in quantized_model.subgraphs
+    ]
     self._transformation_performer.transform_graph(
         instructions, quantized_model
     )
+    self._update_signature_defs(quantized_model, original_outputs)
     constant_buffer_size = self._process_constant_map(quantized_model)
     if constant_buffer_size > 2**31 - 2**20:
       return self._serialize_large_model(quantized_model)
     else:
       return self._serialize_small_model(quantized_model)
+
+  def _update_signature_defs(
+      self,
+      quantized_model: schema_py_generated.ModelT,
+      original_outputs: list[list[int]],
+  ) -> None:
+    """Points signature outputs to the (possibly rewired) subgraph outputs."""
+    for signature_def in quantized_model.signatureDefs or []:
+      subgraph_id = signature_def.subgraphIndex
+      new_outputs = quantized_model.subgraphs[subgraph_id].outputs
+      rewired = dict(zip(original_outputs[subgraph_id], new_outputs))
+      for tensor_map in signature_def.outputs:
+        tensor_map.tensorIndex = rewired.get(
+            tensor_map.tensorIndex, tensor_map.tensorIndex
+        )
 
   def _process_constant_map(
       self, quantized_model: schema_py_generated.ModelT
